@@ -433,14 +433,14 @@ impl<'a> Gen<'a> {
                 }
                 44..=45 => { if self.avoid && short { continue; } return St::DelAll(t) }
                 46..=52 => {
-                    if self.avoid && (tomb || short) { continue; }
+                    if self.avoid && short { continue; }
                     let i = pickcol(self); let j = pickcol(self);
                     let wv = if !rows.is_empty() && self.rng.chance(3, 4) { let r = self.rng.pick(&rows).clone(); r[j].clone() } else { self.val(cols[j].ty, false) };
                     if wv == V::N { continue; }
                     let sv = self.val(cols[i].ty, nullable(&cols[i]));
                     return St::UpdEq(t, cols[i].name, sv, cols[j].name, wv);
                 }
-                53..=54 => { if self.avoid && (tomb || short) { continue; } let i = pickcol(self); let sv = self.val(cols[i].ty, nullable(&cols[i])); return St::UpdAll(t, cols[i].name, sv); }
+                53..=54 => { if self.avoid && short { continue; } let i = pickcol(self); let sv = self.val(cols[i].ty, nullable(&cols[i])); return St::UpdAll(t, cols[i].name, sv); }
                 55..=67 => {
                     if cols.len() >= 6 { continue; }
                     let name = self.free_name(&cols);
@@ -449,10 +449,11 @@ impl<'a> Gen<'a> {
                     return St::Add(t, self.newcol(name, d));
                 }
                 68..=76 => {
-                    if cols.len() <= 1 || (self.avoid && tomb) { continue; }
+                    if cols.len() <= 1 { continue; }
                     let i = pickcol(self);
-                    if self.avoid && false { continue; }
-                    return St::DropC(t, cols[i].name, true);
+                    let _ = tomb;
+                    // the name spelled in the other letter case must behave the same (c3e8980)
+                    return St::DropC(t, cols[i].name, !self.rng.chance(1, 4));
                 }
                 77..=82 => {
                     let i = pickcol(self);
@@ -486,7 +487,8 @@ impl<'a> Gen<'a> {
                 if had_text && !self.dropped_text.contains(t) { self.dropped_text.push(*t); }
                 *self.tomb(*t) = Track::default();
             }
-            St::DropC(t, _, _) | St::UpdAll(t, _, _) => { let k = self.tomb(*t); k.maybe_tomb = false; k.short = false; }
+            St::DropC(t, _, _) => self.tomb(*t).short = false,
+            St::UpdAll(t, _, _) => { let k = self.tomb(*t); k.short = k.short && k.maybe_tomb; }
             St::Ins(t, _) | St::InsOne(t, _, _) => self.tomb(*t).maybe_stored = true,
             St::Add(t, _) => { let k = self.tomb(*t); if k.maybe_stored { k.short = true; } }
             _ => {}
